@@ -115,7 +115,12 @@ func (w *netw) catchUp(i int) error {
 		return infra("node %d: tracker calls of catch-up missing", i)
 	}
 	w.mapl[i] = c
-	w.emit(fmt.Sprintf("%dA%d", i, c), fmt.Sprintf("ok~%d~%s~%s", w.opsUpTo(n.cc.VerifRaft().AppliedIndex()), n.view(), sortedCalls(calls)))
+	// arrival order at the follower's tracker is kept (K29)
+	cs := "-"
+	if len(calls) > 0 {
+		cs = strings.Join(calls, "+")
+	}
+	w.emit(fmt.Sprintf("%dA%d", i, c), fmt.Sprintf("ok~%d~%s~%s", w.opsUpTo(n.cc.VerifRaft().AppliedIndex()), n.view(), cs))
 	return nil
 }
 
@@ -260,7 +265,7 @@ func runNet(ops []op, events []string) ([]op, []string, []string, error) {
 					return nil, nil, nil, err
 				}
 			}
-		case code == "s":
+		case code == "s" || code == "n":
 			l, err := w.leader()
 			if err != nil {
 				return nil, nil, nil, err
@@ -270,10 +275,13 @@ func runNet(ops []op, events []string) ([]op, []string, []string, error) {
 			}
 			ln := w.nodes[l]
 			res := "ok"
-			if err := ln.cc.VerifRaft().Snapshot().Error(); err != nil && err.Error() != "nothing new to snapshot" {
+			if err := ln.cc.VerifRaft().Snapshot().Error(); err != nil {
 				res = "err"
+				if err.Error() == "nothing new to snapshot" {
+					res = "noop"
+				}
 			}
-			w.emit(fmt.Sprintf("%ds", l), fmt.Sprintf("%s~%d~%s~-", res, w.opsUpTo(ln.cc.VerifRaft().AppliedIndex()), ln.view()))
+			w.emit(fmt.Sprintf("%dn", l), fmt.Sprintf("%s~%d~%s~-", res, w.opsUpTo(ln.cc.VerifRaft().AppliedIndex()), ln.view()))
 		case code == "d":
 			i, err := w.nodeOfRole(role)
 			if err != nil {
@@ -349,7 +357,11 @@ func runNet(ops []op, events []string) ([]op, []string, []string, error) {
 				return nil, nil, nil, infra("node %d: replay tracker calls missing", i)
 			}
 			w.mapl[i] = c
-			w.emit(tok, fmt.Sprintf("ok~%d~%s~%s", w.opsUpTo(n.cc.VerifRaft().AppliedIndex()), n.view(), sortedCalls(calls)))
+			cs := "-"
+			if len(calls) > 0 {
+				cs = strings.Join(calls, "+")
+			}
+			w.emit(tok, fmt.Sprintf("ok~%d~%s~%s~%d", w.opsUpTo(n.cc.VerifRaft().AppliedIndex()), n.view(), cs, from))
 		default:
 			return nil, nil, nil, fmt.Errorf("bad token %s", e)
 		}
@@ -398,7 +410,7 @@ func normalizeNet(events []string) []string {
 			continue
 		}
 		switch e[1] {
-		case 'a', 's':
+		case 'a', 's', 'n':
 			out = append(out, "0"+e[1:])
 		case 'A':
 			if len(out) == 0 || out[len(out)-1] != "0A" {
